@@ -121,7 +121,7 @@ func suiteBanner(e *vh.Env) {
 		rng := e.Rng.Sub(i)
 		method := rng.Pick([]string{"GET", "GET", "GET", "GET", "GET", "GET", "POST", "HEAD", "PUT"})
 		accept := rng.Pick([]string{"text/html", "text/html", "text/html,application/xhtml+xml", "a/b;q=1, text/html;q=0.9", "*/*", "", "application/json", "TEXT/HTML", "text/htm"})
-		path := "/" + rng.Pick([]string{"", "a", "a/b", "index.html"})
+		path := "/" + rng.Pick([]string{"", "a", "a/b", "index.html", "a//b", "a/../index.html", "./a", "/a"})
 		if rng.Chance(30) {
 			path += "?q=" + rng.Pick([]string{"1", "a%20b", "<x>"})
 		}
@@ -280,7 +280,9 @@ func suiteSplice(e *vh.Env) {
 			continue
 		}
 		rng := e.Rng.Sub(i)
-		ct := rng.Pick([]string{"text/html", "text/html; charset=utf-8", "TEXT/HTML", "application/xhtml+xml", "application/json", "text/plain", "", "image/svg+xml"})
+		ct := rng.Pick([]string{"text/html", "text/html; charset=utf-8", "TEXT/HTML", "application/xhtml+xml", "application/json", "text/plain", "", "image/svg+xml",
+			// not HTML documents, although a parameter mentions the word
+			"application/json; profile=\"https://example.com/schemas/html-snippet\"", "text/plain; charset=utf-8; name=\"index.html\"", "application/octet-stream;x=HTML"})
 		pad := func(n int) []byte {
 			b := make([]byte, n)
 			for j := range b {
@@ -342,7 +344,7 @@ func suiteSplice(e *vh.Env) {
 		}
 		e.Op(fmt.Sprintf("splice %s %s %s", ctHex, vh.Hex(body[:firstLen]), vh.Hex(body[firstLen:])), fmt.Sprintf("%s cl=%v", vh.Hex(out), clKept))
 		// oracle from the property statement
-		html := strings.Contains(strings.ToLower(ct), "html")
+		html := strings.Contains(strings.ToLower(strings.SplitN(ct, ";", 2)[0]), "html") // the media type, not its parameters
 		idx := bytes.Index(body, []byte("<head>"))
 		near := idx >= 0 && idx+6 > 1024-16 && idx < 1024+16
 		switch {
